@@ -101,7 +101,14 @@ root:
 
 		go func() {
 			select {
-			case <-deviceConfigChange:
+			case _, ok := <-deviceConfigChange:
+				if !ok {
+					// the watcher could not be started (or has ended): a closed channel is not a change,
+					// the devices stay as they are until the application shuts down
+					<-ctx.Done()
+					cancel()
+					return
+				}
 				log.Info("handling config change", logger.Debug)
 				cancel()
 			case <-ctx.Done():
